@@ -180,9 +180,11 @@ def c10_abort_in_write_data_phase(v, case):
     the master drops cyc/stb after the write command was accepted but before the (pulsed) wdata.ready strobe, the strobe
     finds no data (the real crossbar then stores whatever is on the bus under whatever `sel` shows) and the FSM stays in
     WRITE waiting for a strobe that never comes again: later accesses hang or read the garbage.
-    Accepts only witnesses of runs on the equal / wide path in which an abort happened and the memory side recorded a
-    write strobe without data."""
-    return bool(v.get("path") in ("equal", "wide") and (v.get("aborts_in_run") or 0) > 0 and (v.get("memory_side_underruns") or 0) > 0
+    (If the next access has already started when the strobe arrives, the strobe takes *its* data for the old address and
+    acknowledges it: no underrun, but the new write never reaches its own address.)
+    Accepts only witnesses of runs on the equal / wide path in which the master dropped a *write* after the memory side had
+    accepted its command (measured by the harness; runs that only abort reads never qualify)."""
+    return bool(v.get("path") in ("equal", "wide") and (v.get("write_aborts_after_command_accepted") or 0) > 0
                 and v.get("kind") in ("no-ack-within-bound", "wdata-underrun", "stored-byte-outside-model-set", "read-byte-not-in-model-set"))
 
 
